@@ -2,8 +2,10 @@ SPECIFICATION Spec
 CONSTANTS
   OrthoEdges = {2, 3, 4, 5, 8, 9}
   TricEdges = {2, 3, 4, 5, 8}
-  SlicesO = 64
-  SlicesT = 2048
+  SlicesO = 8
+  SlicesT = 211
+  XRowO = 6
+  XRowT = 3
   ExplicitThin = 7
   Slice <- MCSlice
   Emit = TRUE
